@@ -135,6 +135,10 @@ func runScenario(sc scenario, work string) result {
 		return runSched(sc, work)
 	case "finalize":
 		return runFinalize(sc, work)
+	case "evictclose":
+		return runEvictClose(sc, work)
+	case "initfail":
+		return runInitFail(sc, work)
 	case "evict":
 		return runEvict(sc, work)
 	case "close":
@@ -265,6 +269,7 @@ func main() {
 			}
 		}
 		if *only == "" || *only == "C07" {
+			scens = append(scens, fixedCloseScens(work, &genErr)...)
 			scens = append(scens, genClose(*seed, nClose, thorough, work, &genErr)...)
 		}
 		if *only == "" || *only == "C06" {
@@ -712,6 +717,43 @@ func genSched(seed uint64, n int, thorough bool, work string, errs *[]string) []
 				Frames: frames})
 		} else {
 			*errs = append(*errs, err.Error())
+		}
+	}
+	return out
+}
+
+// fixedCloseScens: legs that are part of every run
+func fixedCloseScens(work string, errs *[]string) []scenario {
+	var out []scenario
+	// Close after a segment rotation whose init generation failed (no PPS ever arrives)
+	for _, cfg := range []mcfg{
+		{Variant: "FMP4", SegCount: 3, Streams: 1, Dir: true, NoParams: true},
+		{Variant: "LL", SegCount: 7, Streams: 1, Dir: true, NoParams: true},
+		{Variant: "LL", SegCount: 7, Streams: 2, Dir: true, NoParams: true},
+		{Variant: "FMP4", SegCount: 3, Streams: 2, Dir: false, NoParams: true},
+	} {
+		for _, reqs := range [][]areq{nil, {{Kind: "media", Stream: 0}}, {{Kind: "multi"}, {Kind: "media", Stream: 0}}} {
+			out = append(out, scenario{Kind: "initfail", Cfg: cfg, History: []bool{true, true, true, true}, Reqs: reqs})
+		}
+	}
+	// Close (or one more rotation, then Close) after a preload-hint request found its part evicted
+	for _, cfg := range []mcfg{{Variant: "LL", SegCount: 7, Streams: 1}, {Variant: "LL", SegCount: 7, Streams: 1, Dir: true},
+		{Variant: "LL", SegCount: 7, Streams: 2}} {
+		h := []bool{true, false, false}
+		s, err := quickSnapshot(cfg, h, work)
+		if err != nil {
+			*errs = append(*errs, err.Error())
+			continue
+		}
+		var frames []bool
+		for j := 0; j < 2*(cfg.SegCount+2)+2; j++ {
+			frames = append(frames, j%2 == 1)
+		}
+		for _, order := range []string{"close", "continue"} {
+			for k := 0; k < cfg.Streams; k++ {
+				out = append(out, scenario{Kind: "evictclose", Cfg: cfg, History: h, Order: order,
+					Reqs: []areq{{Kind: "path", Stream: k, PKind: "part", ID: uint64(s.Streams[k].NextPartID)}}, Frames: frames})
+			}
 		}
 	}
 	return out
